@@ -19,8 +19,10 @@ def parse_skel(s):
             tok, topic = tok.split(':')
         n = 1
         if tok[0] == 'A' and len(tok) > 1:
-            n = int(tok[1:])
-            tok = 'A'
+            # A3 = batch of 3; A3r = last entry oversize; A2L = long topic; A11G = total > 10 GiB
+            suf = tok[-1] if tok[-1] in 'rLG' else ''
+            n = int(tok[1:len(tok) - len(suf)])
+            tok = 'A' + suf
         out.append((tok, topic, n))
     return out
 
@@ -95,23 +97,28 @@ def mk(docs, job, cfg):
         for i, (kind, topic, n) in enumerate(skel):
             q = queues.setdefault(topic, [])
             d = delivered.setdefault(topic, 0)
-            if kind in ('a', 'A', 'r', 'L'):
+            if kind in ('a', 'A', 'r', 'L', 'Ar', 'AL', 'AG'):
                 ents = []
                 wtopic = topic
-                if kind == 'L':
+                if kind in ('L', 'AL'):
                     wtopic = topic * 240          # a topic name that does not fit the 256-byte entry header
                     queues.setdefault(wtopic, [])
                     delivered.setdefault(wtopic, 0)
                     q = queues[wtopic]
-                for _ in range(n):
-                    s = fresh_size(oversize=(kind == 'r'))
+                for bi in range(n):
+                    s = fresh_size(oversize=(kind == 'r' or (kind == 'Ar' and bi == n - 1)))
                     ents.append((uid, s))
                     uid += 1
-                if kind != 'A':
+                if kind == 'AG' and not conc:
+                    tot = bv64(0)
+                    for u_, s_ in ents:
+                        tot = tot + s_.t + 256
+                    x.solver.add(z3.UGT(tot, 10 * 2 ** 30))
+                if not kind.startswith('A'):
                     res = engine.api(x, w, 'append_for_topic', [PStr(wtopic), engine.payload(ents[0][0], ents[0][1].t)])
                 else:
                     res = engine.api(x, w, 'batch_append_for_topic', [PStr(wtopic), VVec([engine.payload(u, s.t) for u, s in ents])])
-                ops_out.append(dict(op='append' if kind != 'A' else 'batch_append', topic=wtopic,
+                ops_out.append(dict(op='append' if not kind.startswith('A') else 'batch_append', topic=wtopic,
                                     entries=[dict(uid=u, len='size%d' % sizes.index(s)) for u, s in ents]))
                 if res.variant == 'Ok':
                     q.extend(ents)
@@ -121,7 +128,7 @@ def mk(docs, job, cfg):
                     return fail('panic', i, 'append panicked: %s' % res.f[0])
                 else:
                     obs.append(dict(err=engine.errkind(x, res)))
-                if 'C15' in oracles and kind in ('r', 'L'):
+                if 'C15' in oracles and kind in ('r', 'L', 'Ar', 'AL', 'AG'):
                     # a failed append must not change any count
                     for tt in sorted(queues):
                         c = engine.api(x, w, 'get_topic_entry_count', [PStr(tt)])
